@@ -259,7 +259,8 @@ def generate(rng, tier):
     for i, c in enumerate(cases):
         if c.pop("_xcfix", False):
             c["xc"] = xc_spec(rng, c["fields"], fixed=[allk[(i + j) % len(allk)] for j in range(0, 12, 3)] + [
-                ("cfgs", True), ("dcfgs", False), ("dcfgs", False), ("dcfgs", False), ("virt", True), ("virt", False), ("virt", True)])
+                ("cfgs", True), ("dcfgs", False), ("dcfgs", False), ("dcfgs", False), ("virt", True), ("virt", False), ("virt", True)] + [
+                (FLD_KINDS[(i * 5 + j) % len(FLD_KINDS)], (i + j) % 3 != 0) for j in range(5)] + [("fld:ChallengeField", i % 4 != 0)])
         elif rng.random() < 0.45:
             c["xc"] = xc_spec(rng, c["fields"])
     for c in cases:
@@ -337,8 +338,39 @@ DEFAULT_MODES = ["empty-list", "callable-list", "none"]
 FILL_METHODS = ["append", "append_cfg", "insert", "iadd", "assign", "append_cfg", "append"]
 
 
+# every built-in scalar field class, constructed with sensitive=True and sensitive=False (the container classes ListField /
+# DictField and VirtualField are the kinds above).  (non-empty value, empty value or None when the class has none)
+FLD_CLASSES = {
+    "StringField": (lambda t: "fld-string-%s" % t, ""),
+    "HostnameField": (lambda t: "fld-host-%s.example.org" % t, None),
+    "IPv4AddressField": (lambda t: "192.168.%d.77" % (int(t) % 250), None),
+    "IPv4NetworkField": (lambda t: "10.%d.0.0/16" % (int(t) % 250), None),
+    "UrlField": (lambda t: "https://fld-url-%s.example.org/path" % t, None),
+    "FilenameField": (lambda t: "/nonexistent/fld-file-%s.conf" % t, None),
+    "LogLevelField": (lambda t: "warning", None),
+    "ApplicationModeField": (lambda t: "production", None),
+    "IntField": (lambda t: 123400 + int(t), 0),
+    "PortField": (lambda t: 8400 + int(t), None),
+    "FloatField": (lambda t: 1234.5 + int(t), 0.0),
+    "BoolField": (lambda t: True, False),
+    "BytesField": (lambda t: ("fld-bytes-%s" % t).encode(), b""),
+    "AnyField": (lambda t: "fld-any-%s" % t, 0),
+    "ChallengeField": (lambda t: "fld-challenge-%s" % t, None),
+    "SecureField": (lambda t: "fld-secure-%s" % t, ""),
+}
+FLD_KINDS = ["fld:" + k for k in FLD_CLASSES]
+
+
 def xc_value(rng, kind, tag):
     """None (unset), empty or non-empty; strings are recognisable and unique to this field"""
+    if kind.startswith("fld:"):
+        full, empty = FLD_CLASSES[kind[4:]]
+        r = rng.random()
+        if r < 0.08:
+            return None
+        if r < 0.2 and empty is not None:
+            return empty
+        return full(tag)
     if kind == "dcfgs":
         items = [{"name": "xc-name-%s-%d" % (tag, i), "pw": rng.choice(["xc-pw-%s-%d" % (tag, i), "", "x"]),
                   "auth": {"api_key": "xc-apikey-%s-%d" % (tag, i), "label": "xc-label-%s-%d" % (tag, i)}}
@@ -375,17 +407,20 @@ def xc_spec(rng, fields, fixed=None):
     spec = []
     n = 0
     for kind, sens in (fixed if fixed is not None else
-                       [(rng.choice(XC_KINDS + ["dcfgs", "dcfgs", "virt", "virt"]), rng.random() < 0.7) for _ in range(rng.randint(1, 4))]):
+                       [(rng.choice(XC_KINDS + ["dcfgs", "dcfgs", "virt", "virt"] + FLD_KINDS), rng.random() < 0.7)
+                        for _ in range(rng.randint(1, 5))]):
         n += 1
         if kind == "dcfgs":
             sens = False                  # the list field itself is not sensitive: its items' fields are
         place = rng.choice(places) if fixed is None else places[n % len(places)]
-        name = "xc%d_%s" % (n, kind)
+        name = "xc%d_%s" % (n, kind.replace(":", "_"))
         spec.append((place, name, kind, sens, xc_value(rng, kind, "%d" % n)))
     return spec
 
 
 def xc_node(kind, sens, value=None):
+    if kind.startswith("fld:"):
+        return {"t": "fld", "cls": kind[4:], "sensitive": sens}
     if kind == "dcfgs":
         return {"t": "cfglist", "required": False, "vals": [], "fields": DITEM}
     if kind == "virt":
@@ -427,6 +462,14 @@ def run_containers(c):
     item_schemas = {}
 
     def mk(kind, sens, name=None, value=None):
+        if kind.startswith("fld:"):
+            import cincoconfig
+            cls = getattr(cincoconfig, kind[4:])
+            if kind == "fld:SecureField":
+                return cls(method="xor", sensitive=sens)       # xor: the same ciphertext in every render (no random IV)
+            if kind == "fld:ApplicationModeField":
+                return cls(create_helpers=False, sensitive=sens)
+            return cls(sensitive=sens)
         if kind == "virt":
             return VirtualField(lambda cfg, v=value: v, sensitive=sens)
         if kind == "dcfgs":
@@ -820,6 +863,8 @@ def check_cfg(fields, cfg, plain, masked, mask, path, bad, secrets, publics, vir
                 if not same(masked[k], plain[k]):
                     bad.append("%s (%s) is rendered as %r under mask %r but %r without" % (
                         p, "mask absent" if mask is None else "not sensitive", masked[k], mask, plain[k]))
+        elif nd["t"] == "fld":
+            check_field(nd, cfg, k, x, plain[k], masked[k], mask, p, bad, secrets, publics)
         elif nd["t"] == "xc":
             check_container(nd, x, plain[k], masked[k], mask, p, bad, secrets, publics)
         elif nd["t"] == "sub":
@@ -846,6 +891,58 @@ def check_cfg(fields, cfg, plain, masked, mask, path, bad, secrets, publics, vir
                         continue
                     check_cfg(nd["fields"], it, plain[k][i], masked[k][i], mask, "%s[%d]" % (p, i), bad, secrets, publics,
                               virtual, True, notes)
+
+
+def check_field(nd, cfg, k, x, plain, masked, mask, p, bad, secrets, publics):
+    """a scalar field of a built-in class; x is the STORED value.  Under a mask a sensitive field is rendered from the
+    stored value: None when it is falsy, a one-character mask once per character of str(stored value) -- for a str its
+    characters, for an int / float / bool the text Python prints, for bytes the b'..' literal, for a ChallengeField's
+    digest value the `salt:digest` base64 pair -- and any other mask verbatim.  Otherwise: the field's basic form."""
+    import base64
+    cls = nd["cls"]
+    leaks = []                                                # texts that must not be readable when the field is masked
+    if x is None:
+        want_plain = None
+    elif cls == "BytesField":
+        want_plain = base64.b64encode(x).decode()
+        leaks = [want_plain, x.decode("latin-1")]
+    elif cls == "ChallengeField":
+        want_plain = {"salt": base64.b64encode(x.salt).decode(), "digest": base64.b64encode(x.digest).decode()}
+        leaks = [want_plain["salt"], want_plain["digest"]]
+    elif cls == "SecureField":
+        want_plain = NotImplemented                           # a ciphertext: decrypted below
+        leaks = [x]
+    else:
+        want_plain = x
+        leaks = [x] if isinstance(x, str) else []
+    if want_plain is NotImplemented:
+        if not x:
+            if plain is not None:
+                bad.append("without a mask empty secure field %s is rendered as %r" % (p, plain))
+        else:
+            try:
+                back = cfg._schema._fields[k].to_python(cfg, copy.deepcopy(plain))
+            except Exception as e:  # noqa
+                back = "<%s>" % type(e).__name__
+            if not isinstance(plain, dict) or back != x:
+                bad.append("without a mask secure field %s is rendered as %r, which decrypts to %r, holds %r" % (p, plain, back, x))
+            elif isinstance(plain, dict):
+                leaks.append(plain.get("ciphertext") or "")
+    elif not same(plain, want_plain):
+        bad.append("without a mask %s field %s is rendered as %r, basic form of the stored value is %r" % (cls, p, plain, want_plain))
+    if nd["sensitive"] and mask is not None:
+        want = expected_mask(mask, x)
+        if not same(masked, want):
+            bad.append("sensitive %s %s is rendered as %r under mask %r, expected %r (stored value prints as %r)" % (
+                cls, p, masked, mask, want, str(x) if cls != "ChallengeField" else "<salt:digest>"))
+        for s in leaks:
+            if isinstance(s, str) and len(s) >= 6:
+                secrets.append((p, s))
+    else:
+        publics.extend(leaks)
+        if not same(masked, plain):
+            bad.append("%s %s (%s) is rendered as %r under mask %r but %r without" % (
+                cls, p, "mask absent" if mask is None else "declared sensitive=False", masked, mask, plain))
 
 
 def container_strings(x, out):
@@ -990,6 +1087,8 @@ def oracle(c, obs):
                 bad.append("config-type variant: sensitive_mask=None changed the tree")
     # sensitive container fields added to the real schema (implementation only)
     v = c.get("_containers")
+    if v is not None and "root" not in v:
+        bad.append("container variant: the schema with the extra fields could not be built / instantiated: %s" % v.get("ctor"))
     if v is not None and "root" in v:
         if v["plain"][0] != "ok" or v["masked"][0] != "ok":
             bad.append("container variant: to_tree raised %r / %r" % (v["plain"][1], v["masked"][1]))
